@@ -46,8 +46,9 @@ func (g *gen) nums(n int, float bool) string {
 		var s string
 		if float {
 			s = fmt.Sprintf("%d.%d", g.t.Draw(40), 1+g.t.Draw(9))
-			if g.t.Draw(9) == 0 {
-				s = []string{"1e16", "-1e16", "1e-7", "3.3", "123456789.125"}[g.t.Draw(5)]
+			if g.t.Draw(4) == 0 {
+				// magnitudes at which the spacing of doubles changes (2^53, 2^54) in cancelling pairs, and integral terms
+				s = []string{"1e16", "-1e16", "1e-7", "3.3", "123456789.125", "9007199254740992", "-9007199254740992", "18014398509481984", "-18014398509481984", "3.0", "7.0", "1.0"}[g.t.Draw(12)]
 			}
 		} else {
 			s = fmt.Sprint(g.t.Draw(60) - 10)
@@ -130,6 +131,8 @@ var catalogue = []expr{
 	{"union", "N | (N => . + 3)"}, {"intersect", "N & (N => . + 3)"}, {"diff", "N &~ (N => . + 3)"},
 	{"merge-dict", "D +> D2"}, {"merge-tuple", "T +> T2"}, {"dict-union", "D | D2"},
 	{"set-pattern", "cond N {{0, ...}: 1, _: 2}"}, {"set-pattern", "let {-1, ...r} = N | {-1}; r"},
+	{"set-pattern-shorter-than-set", "cond (N | {-11}) {{x, -11}: x, _: 999}"}, {"set-pattern-shorter-than-set", "let {x, -11} = N | {-11}; x"},
+	{"set-pattern-shorter-than-set", "cond S {{x}: x, {x, y}: [x, y], _: 'many'}"},
 	{"cond-set", "cond {N where . > 20: 1, S: 2}"},
 	{"rel-union", "//rel.union({N, N => . * 2, {1000}})"},
 	{"seq", "//seq.concat((S orderby .) >> [., .])"}, {"seq", "//seq.join(\",\", S orderby .)"}, {"seq", "(N orderby .) >> (. * 2)"},
